@@ -105,6 +105,7 @@ def parse_sidecar(path):
 # normalisations (line for line; the number of lines never changes)
 
 N1_RE = re.compile(r'^(\s*)\((\w+), (\w+)\) = (.+);\s*$')
+N4_RE = re.compile(r"^(\s*(?:pub(?:\([a-z]+\))?\s+)?const\s+\w+\s*:\s*)&(?!'static)(.*)$")
 N3_RE = re.compile(r'^(\s*)([\w.]+)\.clone_from\(&([\w.]+)\);\s*$')
 
 
@@ -155,6 +156,11 @@ def normalise(fname, text):
             new = '%slet (n1_a, n1_b) = %s; %s = n1_a; %s = n1_b;' % (ind, e, a, b)
             notes.append({'file': fname, 'line': n, 'rule': 'N1 destructuring assignment', 'from': line.strip(), 'to': new.strip()})
             line = new
+        m = N4_RE.match(line)
+        if m:
+            new = m.group(1) + "&'static " + m.group(2)
+            notes.append({'file': fname, 'line': n, 'rule': "N4 elided 'static lifetime in a const item made explicit", 'from': line.strip(), 'to': new.strip()})
+            line = new
         m = N3_RE.match(line)
         if m:
             ind, x, y = m.groups()
@@ -175,11 +181,24 @@ def split_regex_args(args):
     return fn, m.group(1), (m.group(2) or '1')
 
 
-def plan_insertions(src, blocks):
-    """returns list of (pos, kind, block) with kind in {'lines','inline'}; pos for 'lines' is a line start"""
+def plan_insertions(src, blocks, lost=None):
+    """returns list of (pos, kind, block) with kind in {'lines','inline'}; pos for 'lines' is a line start.
+    If `lost` is a list, anchor errors are collected there as (block, message) instead of being raised."""
+    ins = []
+    for b in blocks:
+        try:
+            ins += _plan_block(src, b)
+        except AnchorError as ex:
+            if lost is None:
+                raise
+            lost.append((b, str(ex)))
+    return ins
+
+
+def _plan_block(src, b):
     ins = []
     text = src.text
-    for b in blocks:
+    if True:
         d = b.directive
         if d == 'crate-attrs':
             ins.append((0, 'lines', b))
@@ -337,10 +356,18 @@ def unweave(woven, linemap):
     return '\n'.join(out)
 
 
+def fn_exists(text, fnpath):
+    try:
+        Source(text).find_fn(fnpath)
+        return True
+    except AnchorError:
+        return False
+
+
 HINT_DIRECTIVES = ('before', 'after', 'body-start', 'loop-body', 'loop-end')
 
 
-def weave_all(repo_src, contracts_dir, spec_dir, out_dir, extra_blocks=None, skip_hints_for=None):
+def weave_all(repo_src, contracts_dir, spec_dir, out_dir, extra_blocks=None, skip_hints_for=None, quarantine=None):
     """Weave the whole crate.  returns a dict describing what was done (also written to out_dir/weave.json)."""
     if os.path.exists(out_dir):
         shutil.rmtree(out_dir)
@@ -354,6 +381,23 @@ def weave_all(repo_src, contracts_dir, spec_dir, out_dir, extra_blocks=None, ski
         info['normalisations'] += notes
         sc = os.path.join(contracts_dir, fname[:-3] + '.contract')
         blocks = parse_sidecar(sc) if os.path.exists(sc) else []
+        if quarantine:
+            # quarantine: the function can no longer carry ANY of its annotations (renamed locals, restructured loops).
+            # Keep only its contract, mark it external_body (the contract is then ASSUMED for its callers), so that the
+            # rest of the crate can still be verified; the runner reports the function's own obligations as undecided.
+            kept = []
+            for b in blocks:
+                if b.directive in ('fn', 'loop', 'wrap-arg', 'inline', 'inline-after') + HINT_DIRECTIVES and (fname, split_args(b.args)[0]) in quarantine:
+                    if b.directive == 'fn' and fn_exists(norm, split_args(b.args)[0]):
+                        if not any('external_body' in l for l in b.lines):
+                            b.lines = ['#[verifier::external_body]  // QUARANTINED by the runner'] + b.lines
+                            b.__init__(b.bid, b.directive, b.args, b.lines, b.sidecar, b.sidecar_line - 1)
+                        kept.append(b)
+                    continue
+                kept.append(b)
+            blocks = kept
+            for k, b in enumerate(blocks):
+                b.bid = k
         if skip_hints_for:
             # degraded mode: a changed function can no longer carry its in-body proof hints; keep its contract and
             # loop invariants only (instrumentation that defines ghost state, i.e. blocks marked KEEP, stays)
@@ -373,10 +417,19 @@ def weave_all(repo_src, contracts_dir, spec_dir, out_dir, extra_blocks=None, ski
             for k, b in enumerate(blocks):
                 b.bid = k
         src = Source(norm)
-        try:
-            ins = plan_insertions(src, blocks)
-        except AnchorError as ex:
-            raise AnchorError('%s: %s' % (fname, ex))
+        lost = []
+        ins = plan_insertions(src, blocks, lost)
+        if lost:
+            # a lost anchor inside a function quarantines that function (see above); anything else is fatal
+            lost_fns = set()
+            for (b, msg) in lost:
+                if b.directive in ('fn', 'loop', 'wrap-arg', 'inline', 'inline-after') + HINT_DIRECTIVES:
+                    lost_fns.add((fname, split_args(b.args)[0]))
+                else:
+                    raise AnchorError('%s: %s' % (fname, msg))
+            info.setdefault('lost_anchors', []).extend('%s: %s' % (fname, m) for (_, m) in lost)
+            info.setdefault('lost_fns', set()).update(lost_fns)
+            continue
         woven, linemap = weave_text(norm, ins)
         if unweave(woven, linemap) != norm:
             raise AnchorError('%s: self-check failed (woven minus insertions != normalised source)' % fname)
@@ -402,8 +455,17 @@ def weave_all(repo_src, contracts_dir, spec_dir, out_dir, extra_blocks=None, ski
         for f in sorted(os.listdir(spec_dir)):
             if f.endswith('.rs'):
                 shutil.copy(os.path.join(spec_dir, f), os.path.join(out_dir, f))
+    if info.get('lost_fns'):
+        # weave again with the affected functions quarantined (or, if the function itself is gone, without its blocks)
+        lost_fns = set(info['lost_fns']) | set(quarantine or ())
+        if quarantine and lost_fns <= set(quarantine):
+            raise AnchorError('; '.join(info['lost_anchors']))
+        info2 = weave_all(repo_src, contracts_dir, spec_dir, out_dir, extra_blocks=extra_blocks, skip_hints_for=skip_hints_for, quarantine=lost_fns)
+        info2['auto_quarantined'] = sorted('%s::%s' % k for k in lost_fns)
+        info2['lost_anchors'] = info['lost_anchors'] + info2.get('lost_anchors', [])
+        return info2
     with open(os.path.join(out_dir, 'weave.json'), 'w') as f:
-        json.dump(info, f)
+        json.dump({k: v for k, v in info.items() if k != 'lost_fns'}, f)
     return info
 
 
